@@ -389,11 +389,60 @@ class Hist:
     def sync_cfg(self, *extra):
         a = self.arr
         args = ['sync'] + list(extra) + ['--force-empty', '--force-zero']
+        try:
+            maps0 = [(m['name'], m['pos'], m['uuid']) for m in a.content()['maps']]
+        except Exception:
+            maps0 = None
         r = a.run(*args)
         self.log.append(args + [r.rc])
         self.ncmds += 1
         st = self.invariants(' '.join(args) + ' (configuration: %s)' % ' '.join('%s=%s' % x for x in a.disk_lines()))
+        if st is not None and maps0 is not None and r.rc == 0:
+            self.map_model(maps0, st, args)
         return r, st
+
+    def map_model(self, maps0, st, args):
+        """tie of coq/Array/MapModel.v: the positions recorded in the 'M' records of the new content file must be the ones
+        `remap` (the extracted model of the 'M' loader + state_map) predicts from the old records and the configuration"""
+        mm = getattr(self, 'mapmodel', None)
+        if not mm:
+            return
+        a = self.arr
+        ids = getattr(self, '_nameid', None)
+        if ids is None:
+            ids = self._nameid = {}
+            self._uuidid = {}
+        def nid(x):
+            return ids.setdefault(x if isinstance(x, str) else x.decode('latin1'), len(ids) + 1)
+        def uid(u):
+            if not u:
+                return 0
+            return self._uuidid.setdefault(u, len(self._uuidid) + 1)
+        dl = a.disk_lines()
+        req = ['remap', '1' if '--test-match-first-uuid' in args else '0', '0', '0', str(a.np), '0', 'M', str(len(maps0))]
+        for n, p, u in maps0:
+            req += [str(nid(n)), str(p), str(uid(u))]
+        req += ['G', str(len(dl))]
+        for n, d in dl:
+            req += [str(nid(n)), '-']          # --test-skip-device: no uuid is detected (has_unsupported_uuid)
+        out = run_lines(mm, [' '.join(req)], shards=1)[0]
+        self.bump('map_model_comparisons')
+        real = [(nid(m['name']), m['pos']) for m in st['maps']]
+        back = {v: k for k, v in ids.items()}
+        if out.startswith('ok '):
+            t = out.split()
+            pred = [(int(t[2 + 2 * i]), int(t[3 + 2 * i])) for i in range(int(t[1]))]
+            # the save writes the mappings of the disks in use only: the records are a subsequence of the prediction
+            it = iter(pred)
+            ok = all(any(x == y for y in it) for x in real)
+        else:
+            pred = None
+            ok = False
+        if not ok:
+            self.chk.violation('drift_map', 'MODEL-DRIFT: after `%s` the content file records the disks at %s; coq/Array/MapModel.v remap predicts %s from the previous records %s and the configuration %s' % (
+                ' '.join(args), [(back[n], p) for n, p in real], None if pred is None else [(back[n], p) for n, p in pred],
+                [(n if isinstance(n, str) else n.decode('latin1'), p) for n, p, u in maps0], [x[0] for x in dl]),
+                dict(self.rinfo, history=self.log, request=' '.join(req), reply=out), no_input=True)
 
     def cfg(self, op):
         """a change of the configuration file followed by the sync that records it; the map / parity oracles run after it, with
@@ -935,8 +984,9 @@ def main(tier, replay=None):
     ob = check_obligations('C06')
     proof_coverage(chk, ob, 'make -f Makefile.coq -k Props/Properties_C06*.vo (coqc 8.16.1) + Print Assumptions',
                    ['Coq 8.16.1 kernel', 'hand model coq/Array/{ArrayDefs,SyncModel}.v of cmdline/sync.c state_sync_process + state_write normalisation',
-                    'extraction + ocaml/C06/driver.ml', 'harness/py/{arraylib,modelbridge,content,gfref}.py (independent content decoder and parity checker)', 'harness/c/shim.c'])
+                    'extraction + ocaml/C06/driver.ml', 'hand model coq/Array/MapModel.v of the M-record loader + state_map (cmdline/state.c) + ocaml/C06map/driver.ml', 'harness/py/{arraylib,modelbridge,content,gfref}.py (independent content decoder and parity checker)', 'harness/c/shim.c'])
     model = build_model('Extract/Extract_C06.vo', 'ocaml/C06', 'c06_ext', 'driver.ml', 'model')
+    mapmodel = build_model('Extract/Extract_C06map.vo', 'ocaml/C06map', 'c06map_ext', 'driver.ml', 'mapmodel')
     rng = chk.rng
     if replay:
         rp = json.load(open(replay))['replay']
@@ -948,6 +998,7 @@ def main(tier, replay=None):
         else:
             H = Hist(chk, binary, shim, model, random.Random(rp['seed']), rp['nd'], rp['np'], hasher=hasher)
         H.rinfo = {'nd': rp['nd'], 'np': rp['np'], 'seed': rp['seed'], 'ops': rp['ops'], 'plain': rp.get('plain')}
+        H.mapmodel = mapmodel
         H.run([tuple(o) for o in rp['ops']])
         print('replayed history on', H.arr.root, '(kept for inspection)' if os.environ.get('VERIF_KEEP') else '')
         for l in H.log:
@@ -1021,6 +1072,7 @@ def main(tier, replay=None):
             H = Hist(chk, binary, shim, model, random.Random(seed), nd, np_, hasher=hasher)
             H.rinfo = {'nd': nd, 'np': np_, 'seed': seed, 'ops': ops}
         H.family = fam
+        H.mapmodel = mapmodel
         H.run(ops)
         shutil.rmtree(H.arr.root, ignore_errors=True)
         return H
